@@ -21,13 +21,8 @@ func Errorf(format string, args ...interface{}) error {
 
 func Sprintf(format string, args ...interface{}) string {
 	if (format == "%s" || format == "%v") && len(args) == 1 {
-		switch v := args[0].(type) {
-		case string:
-			return v
-		case []byte:
-			return string(v)
-		case error:
-			return v.Error()
+		if s, ok := argText(args[0]); ok {
+			return s
 		}
 	}
 	if len(args) == 0 {
@@ -38,8 +33,91 @@ func Sprintf(format string, args ...interface{}) string {
 				return format + "%!(MISSING)"
 			}
 		}
+		return format
 	}
-	return format
+	// general case: %s %v %q (strings, []byte, errors) and %% are formatted; any other verb
+	// makes the whole result opaque (the format string itself)
+	out := make([]byte, 0, len(format))
+	ai := 0
+	for i := 0; i < len(format); i++ {
+		c := format[i]
+		if c != '%' {
+			out = append(out, c)
+			continue
+		}
+		if i+1 >= len(format) {
+			return format
+		}
+		v := format[i+1]
+		i++
+		if v == '%' {
+			out = append(out, '%')
+			continue
+		}
+		if ai >= len(args) {
+			return format
+		}
+		s, ok := argText(args[ai])
+		ai++
+		if !ok {
+			return format
+		}
+		switch v {
+		case 's', 'v':
+			out = append(out, s...)
+		case 'q':
+			out = quote(out, s)
+		default:
+			return format
+		}
+	}
+	return string(out)
+}
+
+func argText(a interface{}) (string, bool) {
+	switch v := a.(type) {
+	case string:
+		return v, true
+	case []byte:
+		return string(v), true
+	case error:
+		return v.Error(), true
+	}
+	return "", false
+}
+
+// quote models strconv.Quote for the byte classes the harnesses use: printable ASCII,
+// the named escapes, other control bytes as \xNN and bytes >= 0x80 (the harnesses only
+// use isolated such bytes, i.e. invalid UTF-8) as \xNN.
+func quote(dst []byte, s string) []byte {
+	const hex = "0123456789abcdef"
+	dst = append(dst, '"')
+	for i := 0; i < len(s); i++ {
+		c := s[i]
+		switch {
+		case c == '"' || c == '\\':
+			dst = append(dst, '\\', c)
+		case c == '\a':
+			dst = append(dst, '\\', 'a')
+		case c == '\b':
+			dst = append(dst, '\\', 'b')
+		case c == '\f':
+			dst = append(dst, '\\', 'f')
+		case c == '\n':
+			dst = append(dst, '\\', 'n')
+		case c == '\r':
+			dst = append(dst, '\\', 'r')
+		case c == '\t':
+			dst = append(dst, '\\', 't')
+		case c == '\v':
+			dst = append(dst, '\\', 'v')
+		case c < 0x20 || c >= 0x7f:
+			dst = append(dst, '\\', 'x', hex[c>>4], hex[c&0xf])
+		default:
+			dst = append(dst, c)
+		}
+	}
+	return append(dst, '"')
 }
 
 // ErrsError models (*errs.errorT).Error(), i.e. fmt.Sprintf("%v", e) through
@@ -177,4 +255,84 @@ func TimerStop(t *time.Timer) bool {
 	}
 	st.stopped = true
 	return true
+}
+
+// ---- encoding/json (only what the gateway's error body needs) ----
+
+func jsonEscapeString(dst []byte, s string) []byte {
+	const hex = "0123456789abcdef"
+	dst = append(dst, '"')
+	for i := 0; i < len(s); i++ {
+		c := s[i]
+		switch {
+		case c == '"' || c == '\\':
+			dst = append(dst, '\\', c)
+		case c == '\n':
+			dst = append(dst, '\\', 'n')
+		case c == '\r':
+			dst = append(dst, '\\', 'r')
+		case c == '\t':
+			dst = append(dst, '\\', 't')
+		case c < 0x20 || c == '<' || c == '>' || c == '&':
+			dst = append(dst, '\\', 'u', '0', '0', hex[c>>4], hex[c&0xf])
+		case c < 0x80:
+			dst = append(dst, c)
+		default:
+			// the harnesses only use single non-ASCII bytes (invalid UTF-8): encoding/json
+			// replaces each invalid byte by U+FFFD
+			dst = append(dst, '\\', 'u', 'f', 'f', 'f', 'd')
+		}
+	}
+	return append(dst, '"')
+}
+
+// JSONMarshalIndent models json.MarshalIndent for map[string]interface{} values whose
+// elements are strings (keys sorted, as encoding/json does), with the given prefix/indent.
+func JSONMarshalIndent(v interface{}, prefix, indent string) ([]byte, error) {
+	m, ok := v.(map[string]interface{})
+	if !ok {
+		return nil, &strErr{"json model: unsupported value"}
+	}
+	keys := make([]string, 0, len(m))
+	for k := range m {
+		keys = append(keys, k)
+	}
+	for i := 1; i < len(keys); i++ {
+		for j := i; j > 0 && keys[j] < keys[j-1]; j-- {
+			keys[j], keys[j-1] = keys[j-1], keys[j]
+		}
+	}
+	out := []byte{'{'}
+	for i, k := range keys {
+		if i > 0 {
+			out = append(out, ',')
+		}
+		out = append(out, '\n')
+		out = append(out, prefix...)
+		out = append(out, indent...)
+		out = jsonEscapeString(out, k)
+		out = append(out, ':', ' ')
+		s, ok := m[k].(string)
+		if !ok {
+			return nil, &strErr{"json model: unsupported element"}
+		}
+		out = jsonEscapeString(out, s)
+	}
+	if len(keys) > 0 {
+		out = append(out, '\n')
+		out = append(out, prefix...)
+	}
+	out = append(out, '}')
+	return out, nil
+}
+
+// ---- net/http.Header (keys used by the gateway are already canonical) ----
+
+func HeaderSet(h map[string][]string, key, value string) { h[key] = []string{value} }
+func HeaderAdd(h map[string][]string, key, value string) { h[key] = append(h[key], value) }
+func HeaderGet(h map[string][]string, key string) string {
+	if v := h[key]; len(v) > 0 {
+		return v[0]
+	}
+	return ""
 }
